@@ -20,6 +20,13 @@ constexpr size_t RESET_END = 10;
 
 hex::HexSimIO io(std::cin, std::cout);
 
+#ifdef HEX_VERIF
+#include <functional>
+// Verification hook: called after every evaluation of the design (call = -1)
+// and whenever a system call is about to be serviced (call = its number).
+std::function<void(VerilatedContext *, Vhex_pkg *, int)> verifObserver;
+#endif
+
 void load(const char *filename,
           const std::unique_ptr<Vhex_pkg> &top) {
 
@@ -117,6 +124,11 @@ int run(const std::unique_ptr<VerilatedContext> &contextp,
     // this rising edge (never while in reset).
     if (top->i_clk && !top->i_rst && top->o_syscall_valid) {
       auto syscall = static_cast<hex::Syscall>(top->o_syscall);
+#ifdef HEX_VERIF
+      if (verifObserver) {
+        verifObserver(contextp.get(), top.get(), static_cast<int>(top->o_syscall));
+      }
+#endif
       handleSyscall(syscall, top, exitCode, trace);
       if (syscall == hex::Syscall::EXIT) {
         break;
@@ -124,6 +136,11 @@ int run(const std::unique_ptr<VerilatedContext> &contextp,
     }
     // Evaluate the design.
     top->eval();
+#ifdef HEX_VERIF
+    if (verifObserver) {
+      verifObserver(contextp.get(), top.get(), -1);
+    }
+#endif
     if (top->i_clk) {
       cycle_count++;
     }
